@@ -83,6 +83,15 @@ def install_fuel():
     if _installed[0]:
         return
     _installed[0] = True
+    try:
+        _install_fuel()
+    except AttributeError as e:
+        # an entry point was renamed: fuel is then not enforced there and
+        # the wall-clock backstop remains the only hang detector
+        print("HARNESS-NOTE: fuel hook not installed:", e)
+
+
+def _install_fuel():
     N = ckl.nodes
     orig_invoke = N.invoke
 
